@@ -82,3 +82,28 @@ func Reader(s []merkleref.Hash) tlog.HashReader {
 		return out, nil
 	})
 }
+
+// ViewReader serves stored hashes the way an in-memory or memory-mapped store does: a request for
+// consecutive positions is answered with a view into the store itself, any other request with a fresh
+// slice. Whoever writes into what ReadHashes returned writes into the store.
+func ViewReader(s []tlog.Hash) tlog.HashReader {
+	return tlog.HashReaderFunc(func(indexes []int64) ([]tlog.Hash, error) {
+		consecutive := len(indexes) > 0
+		for i, x := range indexes {
+			if x < 0 || x >= int64(len(s)) {
+				return nil, fmt.Errorf("store: index %d out of range (len %d)", x, len(s))
+			}
+			if x != indexes[0]+int64(i) {
+				consecutive = false
+			}
+		}
+		if consecutive {
+			return s[indexes[0] : indexes[0]+int64(len(indexes))], nil
+		}
+		out := make([]tlog.Hash, len(indexes))
+		for i, x := range indexes {
+			out[i] = s[x]
+		}
+		return out, nil
+	})
+}
